@@ -55,6 +55,11 @@ func idpScenario(keyLayout int, fullSession bool, vary bool) *idpRun {
 	}
 	r.req.ServiceProviderMetadata = &EntityDescriptor{EntityID: verifNondetString("sp.EntityID")}
 	r.req.SPSSODescriptor = &SPSSODescriptor{}
+	if verifParam("sp.wantsigned", 0) == 1 && verifChoose("sp.WantAssertionsSigned.false", 2) == 1 {
+		// what the SP says it wants does not change what the IdP owes: both elements are signed
+		no := false
+		r.req.SPSSODescriptor.WantAssertionsSigned = &no
+	}
 	switch keyLayout {
 	case 1: // advertises a real encryption certificate
 		r.req.SPSSODescriptor.KeyDescriptors = []KeyDescriptor{{Use: "encryption", KeyInfo: KeyInfo{X509Data: X509Data{X509Certificates: []X509Certificate{{Data: verifTestCertB64(0, 1)}}}}}}
